@@ -3,16 +3,20 @@ package sim
 import (
 	"encoding/json"
 	"fmt"
+	"strings"
 )
 
 func jsonUnmarshal(s string, v interface{}) error { return json.Unmarshal([]byte(s), v) }
 
 // c05Oracle: confirm / recover links work once, for their account, unmodified.
 type c05Oracle struct {
-	rejections map[int]int // secret id -> near-miss / wrong submissions seen while it was outstanding
+	rejections map[int]int       // secret id -> near-miss / wrong submissions seen while it was outstanding
+	mailed     map[string]string // every token value ever mailed -> "kind/recipient/step"
 }
 
-func newC05Oracle(w *World) Oracle { return &c05Oracle{rejections: map[int]int{}} }
+func newC05Oracle(w *World) Oracle {
+	return &c05Oracle{rejections: map[int]int{}, mailed: map[string]string{}}
+}
 
 func tokenReason(w *World, p *Presented, a int, now *Obs, kind string) string {
 	if p == nil || p.Known == nil || p.Known.Kind != kind {
@@ -33,8 +37,23 @@ func tokenReason(w *World, p *Presented, a int, now *Obs, kind string) string {
 func (c *c05Oracle) Check(w *World, o *Obs) []Violation {
 	var out []Violation
 	st := o.Step
+	// "accepted exactly once", "until a newer request replaces it": every
+	// request for a token issues a token of its own - a value that was mailed
+	// before (used up, superseded or still outstanding) never goes out again
+	for _, m := range o.Mails {
+		if (m.Kind != "confirm" && m.Kind != "recover") || len(m.Token) < 8 {
+			continue
+		}
+		if first, seen := c.mailed[m.Token]; seen {
+			out = append(out, viol("C05", "token_issued_twice", st.Kind, o,
+				fmt.Sprintf("the %s token mailed now is the value that was mailed before (%s): the earlier link is this link", m.Kind, first), "kind", m.Kind))
+		} else {
+			c.mailed[m.Token] = fmt.Sprintf("%s to %s at step %d", m.Kind, strings.Join(m.To, ","), o.N)
+			w.Stats.Reach["c05_fresh_token_mailed"]++
+		}
+	}
 	if !o.IsHTTP {
-		return nil
+		return out
 	}
 	faulted := o.FaultFired != "" || o.Panic != ""
 	tok := o.presented("token")
